@@ -2425,6 +2425,188 @@ func vC16LinOpKeyed(o vC16LinOp, ki int) vC16LinOp {
 	return o
 }
 
+// Recorded concurrent histories as Coq cases (CaseLin): small rounds of real
+// goroutines on one cache.Cache (Get/Add/Remove/CompareAndSwap/CompareAndDelete on
+// the zero key and two keys of one segment, far below capacity so nothing is
+// evicted), every call stamped with a logical clock before and after.  Run.v looks
+// for a linearization that is legal for the sequential map specification of Lin.v —
+// the one Proofs_lin.v proves for every schedule of the interleaving model.  The
+// Go-side Wing-Gong search judges the same history per key (go_fail).  Of `rounds`
+// recorded rounds every rejected one (at most 4) and the `emit` with the most
+// overlapping calls are written out.
+func vC16LinCases(seed int64, rounds, emit, workers, perWorker int) []map[string]any {
+	type rec struct {
+		c        map[string]any
+		overlap  int
+		rejected bool
+	}
+	var all []rec
+	for round := 0; round < rounds; round++ {
+		c := New(4096)
+		m := c.data.data
+		sg := uint(round) % uint(len(m.segments))
+		k1 := vC16KeyInSeg(m, sg, uint64(1+round*7))
+		keys := []uint64{0, k1, vC16KeyInSeg(m, sg, k1+1)}
+		hist := make([][]vC16LinOp, workers)
+		kidx := make([][]int, workers)
+		var clk, arrive atomic.Int64
+		var wg sync.WaitGroup
+		start := make(chan struct{})
+		for w := 0; w < workers; w++ {
+			wg.Add(1)
+			go func(w int) {
+				defer wg.Done()
+				r := rand.New(rand.NewSource(seed*104729 + int64(round)*977 + int64(w)))
+				lastSeen := make([]uint64, len(keys))
+				<-start
+				for n := 0; n < perWorker; n++ {
+					arrive.Add(1)
+					for spin := 0; arrive.Load() < int64(workers*(n+1)) && spin < 1<<22; spin++ {
+						if spin&255 == 255 {
+							runtime.Gosched()
+						}
+					}
+					ki := r.Intn(len(keys))
+					if r.Intn(3) > 0 {
+						ki = 1 + r.Intn(2) // mostly the two keys that share a slot table
+					}
+					k := keys[ki]
+					id := uint64(w+1)*100 + uint64(n+1)
+					old := lastSeen[ki]
+					if old == 0 || r.Intn(4) == 0 {
+						old = uint64(r.Intn(workers)+1)*100 + uint64(r.Intn(n+1)+1)
+					}
+					o := vC16LinOp{}
+					switch x := r.Intn(10); {
+					case x < 3:
+						o = vC16LinOp{kind: 0}
+						o.call = clk.Add(1)
+						v, ok := c.Get(k)
+						o.ret = clk.Add(1)
+						if ok {
+							o.res = v.(uint64)
+							lastSeen[ki] = o.res
+						}
+					case x < 5:
+						o = vC16LinOp{kind: 1, val: id}
+						o.call = clk.Add(1)
+						c.Add(k, id)
+						o.ret = clk.Add(1)
+						lastSeen[ki] = id
+					case x < 6:
+						o = vC16LinOp{kind: 2}
+						o.call = clk.Add(1)
+						c.Remove(k)
+						o.ret = clk.Add(1)
+					case x < 8:
+						o = vC16LinOp{kind: 3, old: old, val: id}
+						o.call = clk.Add(1)
+						o.ok = c.CompareAndSwap(k, old, id)
+						o.ret = clk.Add(1)
+						if o.ok {
+							lastSeen[ki] = id
+						}
+					default:
+						o = vC16LinOp{kind: 4, old: old}
+						o.call = clk.Add(1)
+						o.ok = c.CompareAndDelete(k, old)
+						o.ret = clk.Add(1)
+					}
+					hist[w] = append(hist[w], o)
+					kidx[w] = append(kidx[w], ki)
+				}
+			}(w)
+		}
+		close(start)
+		if !vC16WaitOrHang(&wg) {
+			all = append(all, rec{c: map[string]any{"k": "lin", "coq": "CaseGo 9", "go_fail": "deadlock: recorded-history workers did not finish", "nontrivial": false, "desc": "hang"}, rejected: true})
+			break
+		}
+		// one more read of every key after everything returned
+		fin := make([]vC16LinOp, len(keys))
+		for ki, k := range keys {
+			fin[ki] = vC16LinOp{kind: 0, call: clk.Add(1)}
+			if v, ok := c.Get(k); ok {
+				fin[ki].res = v.(uint64)
+			}
+			fin[ki].ret = clk.Add(1)
+		}
+		goFail := ""
+		overlap := 0
+		var hops, descs []string
+		hop := func(w int, k uint64, o vC16LinOp) {
+			ev := ""
+			switch o.kind {
+			case 0:
+				ev = fmt.Sprintf("LGet %d %d %s", w, k, vC16Opt(o.res, o.res != 0))
+			case 1:
+				ev = fmt.Sprintf("LStore %d %d %d", w, k, o.val)
+			case 2:
+				ev = fmt.Sprintf("LRem %d %d", w, k)
+			case 3:
+				ev = fmt.Sprintf("LCas %d %d %d %d %v", w, k, o.old, o.val, o.ok)
+			default:
+				ev = fmt.Sprintf("LCad %d %d %d %v", w, k, o.old, o.ok)
+			}
+			hops = append(hops, fmt.Sprintf("mk_hop (%s) %d %d", ev, o.call, o.ret))
+			descs = append(descs, fmt.Sprintf("w%d key %d %s", w, k, o.String()))
+		}
+		for ki, k := range keys {
+			var ops []vC16LinOp
+			for w := range hist {
+				for i, o := range hist[w] {
+					if kidx[w][i] == ki {
+						ops = append(ops, o)
+					}
+				}
+			}
+			sort.Slice(ops, func(a, b int) bool { return ops[a].call < ops[b].call })
+			for i := 1; i < len(ops); i++ {
+				if ops[i].call < ops[i-1].ret {
+					overlap++
+				}
+			}
+			ops = append(ops, fin[ki])
+			if goFail == "" && !vC16Linearizable(ops) {
+				goFail = fmt.Sprintf("recorded history of key %d has no linearization as a map entry", k)
+			}
+		}
+		for w := range hist {
+			for i, o := range hist[w] {
+				hop(w, keys[kidx[w][i]], o)
+			}
+		}
+		for ki, k := range keys {
+			hop(workers, k, fin[ki])
+		}
+		if c.Len() > len(keys) && goFail == "" {
+			goFail = fmt.Sprintf("Len()=%d with %d keys in use", c.Len(), len(keys))
+		}
+		all = append(all, rec{overlap: overlap, rejected: goFail != "", c: map[string]any{
+			"k": "lin", "coq": "CaseLin [" + strings.Join(hops, "; ") + "]", "go_fail": goFail,
+			"nontrivial": overlap > 0, "desc": map[string]any{"round": round, "overlapping_pairs": overlap, "history": strings.Join(descs, " | ")}}})
+	}
+	sort.SliceStable(all, func(a, b int) bool {
+		if all[a].rejected != all[b].rejected {
+			return all[a].rejected
+		}
+		return all[a].overlap > all[b].overlap
+	})
+	var out []map[string]any
+	nrej := 0
+	for _, x := range all {
+		if x.rejected {
+			if nrej++; nrej > 4 {
+				continue
+			}
+		} else if len(out)-min(nrej, 4) >= emit {
+			break
+		}
+		out = append(out, x.c)
+	}
+	return out
+}
+
 func TestVerifC16Seg(t *testing.T) {
 	tr := vC16Open(t)
 	defer tr.f.Close()
@@ -2476,6 +2658,9 @@ func TestVerifC16Seg(t *testing.T) {
 	}
 	tr.emit(vC16Linearize(seed, linRounds, 4))
 	tr.emit(vC16Linearize(seed+1, linRounds/2, 8))
+	for _, c := range vC16LinCases(seed, 6*linRounds, linRounds, 3, 3) {
+		tr.emit(c)
+	}
 	tr.emit(vC16RaceSparse())
 	tr.emit(vC16RaceClear())
 }
